@@ -197,7 +197,7 @@ class RefInterp:
             try:
                 for p in params:
                     if p.name == "context":
-                        ctx = _RefContext(self, subq)
+                        ctx = _RefContext(self, subq, copy.deepcopy(vars_))
                         argv.append(ctx)
                         continue
                     if p.kind is inspect.Parameter.VAR_POSITIONAL:
@@ -287,10 +287,11 @@ class _SubState:
 class _RefContext:
     """What a command may do with its context in V: evaluate a sub-query, switch caching off."""
 
-    def __init__(self, interp, subq):
+    def __init__(self, interp, subq, vars_=None):
         self.interp = interp
         self.subq = subq
         self.cache_disabled = False
+        self.vars = vars_ if vars_ is not None else {}
 
     def evaluate(self, q, **_kw):
         from liquer.parser import parse
